@@ -3,11 +3,14 @@
 // object / binary read scopes and the generic serialization layer (SerializeContainer, classes with a
 // Serialize() method issuing KeyValue requests in declaration order, byte containers, strings) — and
 // prints the loaded tree.
-//   ld <m|s> <pol> <shape> <hexdoc>     m = from std::string, s = from std::istream; pol = mismatch,overflow in T|S
+//   ld  <m|s> <pol> <shape> <hexdoc>           m = from std::string, s = from std::istream; pol = mismatch,overflow in T|S
+//   ldp <m|s> <pol> <shape> <prior> <hexdoc>   the same into a target that already holds <prior> (the tree syntax the driver
+//                                              prints, read along the shape: a std::map as {key=value;..}, a class as {s<name>=value;..})
 //   shape := n | T | F | i<kind>:+0 | f0 | d0 | s- | b- | [shape] | {s<hexname>=shape;...} | <kshape=shape> | (N|shape) | v | ^shape;..$
 //            (the tree syntax of drv_mpsave.cpp; scalars give the kind, a vector holds exactly one element: the
 //             shape of its elements; <k=v> is std::map<K, v> with K = std::string (k = s-) or an integer type
-//             (k = i<kind>:+0), loaded by the library's own SerializeMapImpl (MapLoadMode::Clean); the target is
+//             (k = i<kind>:+0), loaded by the library's own SerializeMapImpl in MapLoadMode::Clean; <o|k=v> and <u|k=v> load it
+//             in OnlyExistKeys / UpdateKeys (SerializeMapImpl(ar, map, mode), as user code passes a mode); the target is
 //             value-initialised from the shape); (N|e) is std::array<e, N> (the library's SerializeFixedSizeArray),
 //             v is std::vector<bool> (the library's own overload), ^s1;..;sn$ is std::tuple<s1,..,sn> with n <= 4 (the library's
 //             SerializeArray(std::tuple) on a tuple of references to the component nodes).  A loaded map prints as {key=value;...} in the
@@ -54,6 +57,8 @@ struct MapBase {
 	virtual ~MapBase() = default;
 	[[nodiscard]] virtual std::unique_ptr<MapBase> clone() const = 0;
 	[[nodiscard]] virtual std::string print() const = 0;
+	virtual void put_prior(const std::string& keyText, const Node& value) = 0;
+	[[nodiscard]] virtual Node make_value() const = 0;
 };
 struct MapHandle {
 	std::unique_ptr<MapBase> p;
@@ -81,6 +86,8 @@ struct Node {
 std::string print_node(const Node& n);
 std::string print_key(const std::string& k);
 std::string print_key_int(int kk, int64_t i, uint64_t u);
+std::string parse_key_str(const std::string& keyText);
+int64_t parse_key_int(const std::string& keyText);
 
 // the map target: the interface SerializeMapImpl needs of a std::map whose mapped values are nodes of one shape
 template <class K>
@@ -89,6 +96,7 @@ struct MapOf : MapBase {
 	using mapped_type = Node;
 	using iterator = typename std::map<K, Node>::iterator;
 	int kk = -1;
+	BitSerializer::MapLoadMode mode = BitSerializer::MapLoadMode::Clean;
 	std::shared_ptr<Node> proto;
 	std::map<K, Node> items;
 	void clear() { items.clear(); }
@@ -108,8 +116,13 @@ struct MapOf : MapBase {
 		}
 		return r + "}";
 	}
+	[[nodiscard]] Node make_value() const override { return *proto; }
+	void put_prior(const std::string& keyText, const Node& value) override {
+		if constexpr (std::is_same_v<K, std::string>) items.insert_or_assign(parse_key_str(keyText), value);
+		else items.insert_or_assign(static_cast<K>(parse_key_int(keyText)), value);
+	}
 };
-template <class TArchive, class K> void SerializeObject(TArchive& ar, MapOf<K>& m) { BitSerializer::Detail::SerializeMapImpl(ar, m); }
+template <class TArchive, class K> void SerializeObject(TArchive& ar, MapOf<K>& m) { BitSerializer::Detail::SerializeMapImpl(ar, m, m.mode); }
 
 inline void Vec::resize(size_t n) { items.resize(n, *proto); }
 inline Node& Vec::emplace_back() { items.push_back(*proto); return items.back(); }
@@ -232,13 +245,18 @@ static Node parse(const std::string& t, size_t& p) {
 	}
 	case '<': {
 		n.kind = '<';
+		BitSerializer::MapLoadMode mode = BitSerializer::MapLoadMode::Clean;
+		if (p + 1 < t.size() && t[p + 1] == '|' && (t[p] == 'c' || t[p] == 'o' || t[p] == 'u')) {
+			mode = t[p] == 'o' ? BitSerializer::MapLoadMode::OnlyExistKeys : t[p] == 'u' ? BitSerializer::MapLoadMode::UpdateKeys : BitSerializer::MapLoadMode::Clean;
+			p += 2;
+		}
 		Node k = parse(t, p);
 		if (k.kind != 's' && k.kind != 'i') throw std::runtime_error("map keys are strings or integers");
 		if (t.at(p) != '=') throw std::runtime_error("bad map shape"); ++p;
 		auto proto = std::make_shared<Node>(parse(t, p));
 		if (t.at(p) != '>') throw std::runtime_error("bad map shape"); ++p;
 		n.map.kk = k.kind == 's' ? -1 : k.ik;
-		auto make = [&](auto tag) { using K = decltype(tag); auto m = std::make_unique<dyn::MapOf<K>>(); m->kk = n.map.kk; m->proto = proto; n.map.p = std::move(m); };
+		auto make = [&](auto tag) { using K = decltype(tag); auto m = std::make_unique<dyn::MapOf<K>>(); m->kk = n.map.kk; m->mode = mode; m->proto = proto; n.map.p = std::move(m); };
 		switch (n.map.kk) {
 		case 0: make(uint8_t{}); break; case 1: make(uint16_t{}); break; case 2: make(uint32_t{}); break; case 3: make(uint64_t{}); break;
 		case 4: make(int8_t{}); break; case 5: make(int16_t{}); break; case 6: make(int32_t{}); break; case 7: make(int64_t{}); break;
@@ -331,6 +349,71 @@ std::string dyn::print_key_int(int kk, int64_t i, uint64_t u) {
 	return std::string("i") + kinds[kk] + ":" + shex(i);
 }
 
+std::string dyn::parse_key_str(const std::string& k) {
+	if (k.empty() || k[0] != 's') throw std::runtime_error("bad prior key");
+	return vh::parse_hex(k.substr(1));
+}
+int64_t dyn::parse_key_int(const std::string& k) {
+	auto col = k.find(':');
+	if (k.empty() || k[0] != 'i' || col == std::string::npos) throw std::runtime_error("bad prior key");
+	const std::string v = k.substr(col + 1);
+	uint64_t mag = std::strtoull(v.c_str() + 1, nullptr, 16);
+	return v[0] == '-' ? static_cast<int64_t>(0 - mag) : static_cast<int64_t>(mag);
+}
+
+// the content the target holds before the load: the printed tree syntax, read along the (already shaped) target
+static void fill_prior(Node& n, const std::string& t, size_t& p) {
+	auto token = [&]() { size_t q = p; while (q < t.size() && t[q] != ';' && t[q] != ']' && t[q] != '}' && t[q] != '=') ++q; std::string r = t.substr(p, q - p); p = q; return r; };
+	auto expect = [&](char c) { if (p >= t.size() || t[p] != c) throw std::runtime_error("bad prior"); ++p; };
+	switch (n.kind) {
+	case 'n': expect('n'); break;
+	case 'B': { std::string k = token(); if (k != "T" && k != "F") throw std::runtime_error("bad prior"); n.b = k == "T"; break; }
+	case 'i': { std::string k = token(); const int64_t v = dyn::parse_key_int(k); n.i = v; n.u = static_cast<uint64_t>(v);
+		auto col = k.find(':'); if (k[col + 1] == '+') n.u = std::strtoull(k.c_str() + col + 2, nullptr, 16); break; }
+	case 'f': { std::string k = token(); uint32_t b = static_cast<uint32_t>(std::strtoul(k.c_str() + 1, nullptr, 16)); std::memcpy(&n.f, &b, 4); break; }
+	case 'd': { std::string k = token(); uint64_t b = std::strtoull(k.c_str() + 1, nullptr, 16); std::memcpy(&n.d, &b, 8); break; }
+	case 's': { std::string k = token(); n.s = vh::parse_hex(k.substr(1)); break; }
+	case 'b': { std::string k = token(); const std::string raw = vh::parse_hex(k.substr(1)); n.bytes.assign(raw.begin(), raw.end()); break; }
+	case '[': {
+		expect('['); n.arr.items.clear();
+		if (t.at(p) == ']') { ++p; break; }
+		for (;;) { Node e = *n.arr.proto; fill_prior(e, t, p); n.arr.items.push_back(std::move(e)); if (t.at(p) == ';') { ++p; continue; } expect(']'); break; }
+		break;
+	}
+	case '(': {
+		expect('[');
+		for (size_t i = 0; i < n.fix.items.size(); ++i) { if (i) expect(';'); fill_prior(n.fix.items[i], t, p); }
+		expect(']'); break;
+	}
+	case '^': {
+		expect('[');
+		for (size_t i = 0; i < n.comps.size(); ++i) { if (i) expect(';'); fill_prior(n.comps[i], t, p); }
+		expect(']'); break;
+	}
+	case 'v': {
+		expect('['); n.vb.clear();
+		if (t.at(p) == ']') { ++p; break; }
+		for (;;) { std::string k = token(); n.vb.push_back(k == "T"); if (t.at(p) == ';') { ++p; continue; } expect(']'); break; }
+		break;
+	}
+	case '<': {
+		expect('{');
+		if (t.at(p) == '}') { ++p; break; }
+		for (;;) {
+			std::string k = token(); expect('=');
+			Node e = n.map.p->make_value(); fill_prior(e, t, p); n.map.p->put_prior(k, e);
+			if (t.at(p) == ';') { ++p; continue; } expect('}'); break;
+		}
+		break;
+	}
+	default: {   // class
+		expect('{');
+		for (size_t i = 0; i < n.obj.size(); ++i) { if (i) expect(';'); token(); expect('='); fill_prior(n.obj[i].second, t, p); }
+		expect('}'); break;
+	}
+	}
+}
+
 template <class T> static void load_as(T& v, const std::string& data, bool stream, const BitSerializer::SerializationOptions& opt) {
 	using BitSerializer::MsgPack::MsgPackArchive;
 	if (stream) { std::istringstream is(data); BitSerializer::LoadObject<MsgPackArchive>(v, is, opt); }
@@ -364,14 +447,18 @@ int main() {
 	while (std::getline(std::cin, line)) {
 		auto t = vh::split(line);
 		try {
-			if (t.at(0) != "ld" || t.size() != 5) { std::cout << "UNSUPPORTED" << std::endl; continue; }
+			const bool withPrior = t.at(0) == "ldp";
+			if ((t.at(0) != "ld" && !withPrior) || t.size() != (withPrior ? 6u : 5u)) { std::cout << "UNSUPPORTED" << std::endl; continue; }
 			BitSerializer::SerializationOptions opt;
 			opt.mismatchedTypesPolicy = t[2].at(0) == 'T' ? BitSerializer::MismatchedTypesPolicy::ThrowError : BitSerializer::MismatchedTypesPolicy::Skip;
 			opt.overflowNumberPolicy = t[2].at(1) == 'T' ? BitSerializer::OverflowNumberPolicy::ThrowError : BitSerializer::OverflowNumberPolicy::Skip;
 			size_t p = 0; Node n;
-			try { n = parse(t[3], p); if (p != t[3].size()) throw std::runtime_error("trailing shape text"); }
+			try {
+				n = parse(t[3], p); if (p != t[3].size()) throw std::runtime_error("trailing shape text");
+				if (withPrior) { size_t q = 0; fill_prior(n, t[4], q); if (q != t[4].size()) throw std::runtime_error("trailing prior text"); }
+			}
 			catch (const std::exception& e) { std::cout << "EXC " << e.what() << std::endl; continue; }
-			const std::string data = vh::parse_hex(t[4]);
+			const std::string data = vh::parse_hex(t[withPrior ? 5 : 4]);
 			const bool stream = t[1] == "s";
 			dyn::with_target(n, [&](auto& x) { load_as(x, data, stream, opt); return true; });
 			std::cout << "OK " << print(n) << std::endl;
